@@ -797,10 +797,14 @@ func genMultiDB(r *rand.Rand, id string, size int, total int) []string {
 		} else {
 			q := dbPeers[k][g.pick(len(dbPeers[k]))]
 			if q != p {
-				if g.pick(2) == 0 {
+				switch g.pick(3) {
+				case 0:
 					g.add("sync %d %d", p, q)
-				} else {
+				case 1:
 					g.add("pubdeliver %d %d %d", p, q, g.pick(20))
+				default:
+					// the two peers meet: heads of every database they share, back to back
+					g.add("exchangeall %d %d", q, p)
 				}
 			}
 		}
